@@ -306,15 +306,15 @@ def k_base64_roundtrip(x: str) -> bool:
     return ev("x | base64_encode | base64_decode", x=x) == x and ev("x | base64_url_safe_encode | base64_url_safe_decode", x=x) == x
 
 
-ESC_ALPHA = "&<a;lt\""
+ESC_ALPHA = "&<a;lt\"'"
 
 
 @cond(
     pre=["len(x) <= 3", "in_alpha(x, ESC_ALPHA)"],
     timeout=300,
     covers="escape output has no raw < > \" ' ; escape_once is idempotent; escape_once after escape changes nothing",
-    bounds="x over {& < a ; l t \"} len <= 3",
-    grid=lambda: [("",), ("<a",), ("&lt",), ("&lt;",), ("&&\"",)],
+    bounds="x over {& < a ; l t \" '} len <= 3",
+    grid=lambda: [("",), ("<a",), ("&lt",), ("&lt;",), ("&&\"",), ("it's",), ("'&#x27;",), ("&#39;'",)],
 )
 def k_escape(x: str) -> bool:
     e = ev("x | escape", x=x)
